@@ -212,6 +212,28 @@ CLAIMED["C17"] = (
     "declaration the body kind/head the model is told is tested. Multi-pass output (suffix _1, _2 for mutually "
     "dependent schemas) is not modelled.",
     "DESIGN.md C17")
+CLAIMED["C18"] = (
+    "Rocq/Coq theorems relating the generator's base list and constructor parameter list to ISO 10303-21 attribute "
+    "order for every inheritance graph (equality up to repeats when supertypes are listed deepest first; refutation "
+    "witnesses for diamonds and mixed depth); generated schemas through exp2python, imported against the bundled "
+    "runtime and introspected, vs the schema and the extracted model",
+    "coq/PyGen.v models classes_python.c LIBdescribe_entity() (base list, constructor parameters), count_supertypes(), "
+    "cmp_python_mro(), linklist.c LISTsort() (bubble passes) and entity.c ENTITY_get_all_attributes(), and next to it "
+    "ISO 10303-21's inherited-then-own order with an ancestor contributing once. Properties_C18.v proves (axiom-free), "
+    "for every schema of any size and shape whose entities list their supertypes deepest first (all single-inheritance "
+    "and equal-depth schemas): the class's bases are the declared supertypes in declaration order; the constructor's "
+    "parameters are, after dropping repeats, exactly the Part 21 order; and equal to it when no ancestor is reached "
+    "twice. The unrestricted statement is refuted with two witnesses (diamond; supertypes of different depth), both "
+    "recorded as open findings. The check runs exp2python on generated schemas (chains, multiple supertypes, forced "
+    "diamonds, derived/inverse attributes, every defined-type kind, Python-keyword identifiers), requires exit 0 and "
+    "exactly one module, imports it in a child interpreter against /repo's stepcode package, and compares every "
+    "class's bases and __init__ signature and every type definition (underlying type, enumeration items in order, "
+    "select members, aggregate kind and bounds) with the schema via an independent Part 21 ordering, and with the "
+    "extracted model.",
+    "Importability and the type definitions are tested, not proved. CPython and the runtime package are the platform. "
+    "Schemas with an identifier pair x / x_ and expression-valued aggregate bounds (NotImplementedError by design) are "
+    "outside the generated subset.",
+    "DESIGN.md C18")
 CLAIMED["C19"] = (
     "Rocq/Coq invariants and accept-iff theorems for ARRAY, BAG, SET over all operation sequences; LIST "
     "refuted with witnesses; exhaustive short + random long sequences vs the Python runtime and an EXPRESS oracle",
